@@ -701,6 +701,10 @@ class DataLinkConnection(TransmissionControlObject):
                     send_pdu.nr = self.recv_ack
                     self.send_ready.notify()
 
+                if send_pdu.name == "I" and send_pdu.nr is None:
+                    # queued before close(), still needs a valid N(R)
+                    send_pdu.nr = self.recv_ack
+
                 if send_pdu.name == "DM" and self.state.CLOSE_WAIT:
                     self.recv_queue.append(pdu.Disconnect(
                         dsap=self.peer, ssap=self.addr))
